@@ -53,7 +53,7 @@ theorem NC_expr : ∀ n,
 
 theorem NC_expression (n mp ts) : NC (expression n mp ts) := (NC_expr n).1 mp ts
 
-theorem NC_declarator : ∀ n ts, NC (declarator n ts) := by
+theorem NC_declarator (env : Env) : ∀ n ts, NC (declarator env n ts) := by
   intro n
   induction n with
   | zero => intro ts; simp [declarator]
